@@ -49,21 +49,25 @@ Mismatch(exp, outs, isbool) ==
             \/ (IF isbool THEN Truth(outs[k].data) ELSE outs[k].data) # exp[k].data THEN "data"
   ELSE ""
 
+\* The trace strictly alternates case / ret with matching ids (the engine closes
+\* the case of a died process with an `abort` ret); anything else is a malformed
+\* trace, which TLC does not accept (tool error, not a verdict).
 Case == /\ e.ev = "case"
+        /\ cur.op = "none"
         /\ cur' = e
         /\ cnt' = [cnt EXCEPT !.cases = @ + 1]
         /\ UNCHANGED <<nbad, per>>
 
 Ret ==
   /\ e.ev = "ret"
+  /\ cur.op # "none" /\ e.id = cur.id
   /\ cur' = NoCase
   /\ LET ref == OnnxEval(cur.op, cur.attrs, cur.ins)
          Sig(cls) == [op |-> cur.op, variant |-> cur.tag, class |-> cls]
          Bad(cls) == nbad' = Flag(nbad, FALSE, Sig(cls),
                                   [case |-> cur, ret |-> e, expected |-> ref.outs])
      IN
-     IF cur.op = "none" THEN UNCHANGED <<nbad, cnt, per>>        \* (ret without case: ignored)
-     ELSE IF ref.st = "unmodelled" THEN
+     IF ref.st = "unmodelled" THEN
         cnt' = [cnt EXCEPT !.unmodelled = @ + 1] /\ Bump(cur.op, "unmodelled") /\ UNCHANGED nbad
      ELSE IF ref.st = "undefined" THEN
         /\ cnt' = [cnt EXCEPT !.undefined = @ + 1,
